@@ -72,8 +72,10 @@ func fixedPrograms() []string {
 func run(sum *lib.Summary) {
 	rng := lib.NewRng(*seed)
 	nGen := 600
+	maxMin := 30
 	if *tier == "thorough" {
 		nGen = 20000
+		maxMin = 150
 	}
 	sum.Rule = "programs: fixed corpus of precedence / associativity / literal / template / declaration corner cases + grammar-generated programs " +
 		"(every declaration, statement, expression and type form); each accepted program p: AST JSON with positions and doc strings removed of " +
@@ -95,7 +97,7 @@ func run(sum *lib.Summary) {
 		}
 		if r.key != "" {
 			nFail++
-			if nFail > 30 {
+			if nFail > maxMin {
 				// enough failing programs were minimised and reported; count the rest
 				sum.Count("further failing programs (not minimised)")
 				return
